@@ -378,6 +378,29 @@ theorem noncanonical_cell_witnesses :
         = true) := by
   decide +kernel
 
+/-- a storage-phase transaction without messages (`trans_storage$0001`), 100 → 99 in logical time -/
+def txVal : Val :=
+  let h : List UInt8 := List.replicate 32 7
+  Val.list [.magic, .bytes h, .int 100, .bytes h, .int 99, .int 1700000000, .int 0, .bytes Prim.s_active,
+    .bytes Prim.s_active,
+    Val.list [.none, .nil],
+    Val.list [.int 1000, Val.list [.nil]],
+    Val.list [.magic, .bytes h, .bytes h],
+    Val.ctor "TransStorage" (Val.list [Val.list [.int 5, .none, .bytes Prim.s_acst_unchanged]])]
+
+set_option maxRecDepth 100000 in
+/-- `reencode_tlb_Transaction` / `reencode_tlb_Account` are not vacuous either (TEST on literals): the Transaction cell
+the encoder writes for `txVal` (three references: messages, state update, description) passes the check and decodes;
+`account_none$0` is a canonical Account -/
+theorem canonical_transaction_example :
+    inDom env 30 desc_tlb_Transaction txVal = true ∧
+    (match encode env 30 desc_tlb_Transaction txVal Builder.empty with
+      | .ok b => canonicalCell env 30 desc_tlb_Transaction b.toCell &&
+          (decode env 30 desc_tlb_Transaction (Slice.ofCell b.toCell)).isOk && b.refs.length == 3
+      | _ => false) = true ∧
+    canonicalCell env 30 desc_tlb_Account (Cell.mk 0 0 [false] []) = true := by
+  decide +kernel
+
 end CanonTest
 
 /-! ## Regenerated instances -/
@@ -732,14 +755,14 @@ example :
 
 /-! ## The encoder never panics (values outside `inDom` included) -/
 
-/-- **marshal_no_panic** — `tlb.Marshal` of ANY value of ANY descriptor into any cell under construction returns a
-cell or an error, never a panic: no domain condition, no well-formedness condition. The values `inDom` excludes are
-covered here: a nil pointer where the schema is not optional (also a nil pointer to a type with a value-receiver
-`MarshalTLB`, which the Go encoder called through the nil pointer before the `fix:`), a `MsgAddress` whose selected
-payload pointer is nil, a `VmCellSlice` without its cell, values of the wrong shape, dictionaries whose value codec
-fails. (By induction on the fuel over the four mutually recursive encoders; C05's `Hashmap.marshal` panics only if the
-value codec does.) -/
-theorem marshal_no_panic (env : Env) (fuel : Nat) (T : Ty) (v : Val) (b : Builder) (p : String) :
+/-- **marshal_no_panic_by_construction** (formerly `marshal_no_panic`) — TRUE BY CONSTRUCTION of the model: after the
+three `fix:` commits that turned the nil dereferences of the Go encoder into errors, no definition on the encoder
+path of the model (`Tlb/Enc.lean`, `Tlb/Prims.lean`, `Tlb/Basic.lean`, C05's `Hashmap.marshal`) contains a `.panic`
+constructor, so this theorem only records that fact (it keeps failing to elaborate if a panic point is ever modelled
+again without a guard). It is NOT evidence that the Go encoder cannot panic: that rests on the three repairs, on the
+correspondence lines (the Go side runs under `recover`; a panic is the answer `panic`, which the model never gives)
+and on the Go-side oracle `go.rt` over all registered types, nil pointers in non-optional positions included. -/
+theorem marshal_no_panic_by_construction (env : Env) (fuel : Nat) (T : Ty) (v : Val) (b : Builder) (p : String) :
     encode env fuel T v b ≠ .panic p :=
   ((NPInv.all env fuel).enc T v b).ne p
 
